@@ -14,7 +14,7 @@ from hypothesis import strategies as st
 from .. import core, front, gen, render, backends, model as M, REPO
 from ..core import Part
 
-RULE = ('paths (exhaustive): every relative path of depth <=4 over segments {a, d (existing dir), ., .., é} '
+RULE = ('paths (exhaustive): every relative path of depth <=4 over segments {a, d (existing dir), ., .., é, out_x (a sibling folder whose name starts with the name of the output folder)} '
         'in plain / trailing-slash / absolute form, through output_to_relative_path, copy_to_path and the '
         'Swift writer, in real and manifest mode, inside a sandbox whose whole parent directory is '
         'snapshotted before and after; oracle = lexical normalisation: outside => an exception and an '
@@ -31,7 +31,7 @@ RULE = ('paths (exhaustive): every relative path of depth <=4 over segments {a, 
 ASSUMPTIONS = ['The -d/--documentation options of the Swift / Obj-C type backends (which deliberately address '
                '../../../../.jazzy.json) are not part of the option sets.']
 
-SEGS = ['a', 'd', '.', '..', 'é']
+SEGS = ['a', 'd', '.', '..', 'é', 'out_x']     # out_x: a sibling of the output folder `out` sharing its name as a prefix
 
 
 # ---------------------------------------------------------------------------------------
@@ -69,6 +69,7 @@ def run_path(case, rec):
         root = os.path.join(base, 'out')
         os.makedirs(os.path.join(root, 'd'))
         os.makedirs(os.path.join(base, 'sibling'))
+        os.makedirs(os.path.join(base, 'out_x'))
         with open(os.path.join(base, 'sibling', 'keep.txt'), 'w') as f:
             f.write('keep')
         src = os.path.join(base, 'src.txt')
